@@ -110,3 +110,57 @@ CONTRACTS["data:ProjectData.add_pop#unknown_population_type"] = dict(
     call_stubs={"TimeSeries": _ghost_timeseries},
     raises={"AssertionError": "True"}, raises_props=["C16", "C18"],
     ensures=[], defined_props=["C16", "C18"], op="add")
+
+
+# ---- transfers and interactions as library operations (C16: "library operations ... behave as their visible data"): add_transfer / add_interaction list a NEW empty table
+# over exactly the populations of the stated type(s), with its units / uncertainty / assumption columns switched on, under a code name no other transfer or interaction
+# has; rename_transfer renames that one table (to a free name); remove_transfer / remove_interaction remove that one table and leave the others
+def _env_tdc(it):
+    import numpy as np
+    from pyvc.interp import PyObjV
+    from pyvc import source
+
+    dm, em = source.load("data"), source.load("excel")
+    tdc = lambda name, typ: PyObjV("TimeDependentConnections", em, {"code_name": name, "full_name": name.title(), "type": typ, "ts": {}, "TAG": name})
+    age, mig, mix = tdc("age", "transfer"), tdc("mig", "transfer"), tdc("mix", "interaction")
+    self = PyObjV("ProjectData", dm, {"pops": {"adults": {"label": "Adults", "type": "hum"}, "mosquitoes": {"label": "Mosquitoes", "type": "vec"}, "children": {"label": "Children", "type": "hum"}},
+                                      "_pop_types": ["hum", "vec"], "tvec": np.array([2020.0, 2021.0]), "transfers": [age, mig], "interpops": [mix]})
+    return {"self": self, "AGE": age, "MIG": mig, "MIX": mix}
+
+
+_tdc_stubs = {"format_duration": (lambda it, *a, **k: "per year")}
+_flags = "result.write_units is True and result.write_assumption is True and result.write_uncertainty is True and len(result.ts) == 0"
+for _tag, _pt, _pops in (("default_population_type", None, ["adults", "children"]), ("stated_population_type", "vec", ["mosquitoes"])):
+    CONTRACTS["data:ProjectData.add_transfer#%s" % _tag] = dict(
+        schema=schema, make_env=lambda it, pt=_pt: dict(_env_tdc(it), code_name="new", full_name="New transfer", pop_type=pt), call_stubs=_tdc_stubs, concrete_new=["TimeDependentConnections"],
+        ensures=[("C16.the_new_transfer_is_listed_last_and_the_others_are_kept", "len(self.transfers) == 3 and self.transfers[0] is AGE and self.transfers[1] is MIG and self.transfers[2] is result and len(self.interpops) == 1"),
+                 ("C16.it_connects_exactly_the_populations_of_its_type_in_both_directions", "result.from_pops == %r and result.to_pops == %r and result.from_pop_type == %r and result.to_pop_type == %r and result.type == 'transfer'" % (_pops, _pops, _pt or "hum", _pt or "hum")),
+                 ("C16.it_is_empty_named_as_asked_and_writes_all_its_columns", "result.code_name == 'new' and result.full_name == 'New transfer' and " + _flags)],
+        defined_props=["C16"])
+for _tag, _name, _pt, _exc in (("name_of_another_transfer", "mig", None, "Exception"), ("name_of_an_interaction", "mix", None, "Exception"), ("unknown_population_type", "new", "fish", "AssertionError")):
+    CONTRACTS["data:ProjectData.add_transfer#%s" % _tag] = dict(
+        schema=schema, make_env=lambda it, n=_name, pt=_pt: dict(_env_tdc(it), code_name=n, full_name="New transfer", pop_type=pt), call_stubs=_tdc_stubs, concrete_new=["TimeDependentConnections"],
+        raises={_exc: "True"}, raises_props=["C16", "C18"], ensures=[], defined_props=["C16"])
+CONTRACTS["data:ProjectData.add_interaction#across_population_types"] = dict(
+    schema=schema, make_env=lambda it: dict(_env_tdc(it), code_name="bites", full_name="Bites", from_pop_type="vec", to_pop_type=None), call_stubs=_tdc_stubs, concrete_new=["TimeDependentConnections"],
+    ensures=[("C16.the_new_interaction_is_listed_last_and_the_others_are_kept", "len(self.interpops) == 2 and self.interpops[0] is MIX and self.interpops[1] is result and len(self.transfers) == 2"),
+             ("C16.it_connects_the_populations_of_the_from_type_to_those_of_the_to_type", "result.from_pops == ['mosquitoes'] and result.to_pops == ['adults', 'children'] and result.from_pop_type == 'vec' and result.to_pop_type == 'hum' and result.type == 'interaction'"),
+             ("C16.it_is_empty_named_as_asked_and_writes_all_its_columns", "result.code_name == 'bites' and result.full_name == 'Bites' and " + _flags)],
+    defined_props=["C16"])
+CONTRACTS["data:ProjectData.add_interaction#name_already_used"] = dict(
+    schema=schema, make_env=lambda it: dict(_env_tdc(it), code_name="age", full_name="Bites", from_pop_type=None, to_pop_type=None), call_stubs=_tdc_stubs, concrete_new=["TimeDependentConnections"],
+    raises={"Exception": "True"}, raises_props=["C16", "C18"], ensures=[], defined_props=["C16"])
+CONTRACTS["data:ProjectData.rename_transfer#to_a_free_name"] = dict(
+    schema=schema, make_env=lambda it: dict(_env_tdc(it), existing_code_name="mig", new_code_name="move", new_full_name="Movement"),
+    ensures=[("C16.that_transfer_carries_the_new_names_and_the_others_are_untouched", "MIG.code_name == 'move' and MIG.full_name == 'Movement' and AGE.code_name == 'age' and AGE.full_name == 'Age' and MIX.code_name == 'mix' and len(self.transfers) == 2 and self.transfers[1] is MIG")],
+    defined_props=["C16"])
+for _tag, _old, _new, _exc in (("to_a_name_already_used", "mig", "mix", "Exception"), ("of_an_unknown_transfer", "nothing", "move", "NotFoundError")):
+    CONTRACTS["data:ProjectData.rename_transfer#%s" % _tag] = dict(
+        schema=schema, make_env=lambda it, o=_old, n=_new: dict(_env_tdc(it), existing_code_name=o, new_code_name=n, new_full_name="Movement"),
+        raises={_exc: "True"}, raises_props=["C16", "C18"], ensures=[], defined_props=["C16"])
+CONTRACTS["data:ProjectData.remove_transfer#first_of_two"] = dict(
+    schema=schema, make_env=lambda it: dict(_env_tdc(it), code_name="age"),
+    ensures=[("C16.that_transfer_is_gone_and_the_others_are_kept", "len(self.transfers) == 1 and self.transfers[0] is MIG and len(self.interpops) == 1 and self.interpops[0] is MIX")], defined_props=["C16"])
+CONTRACTS["data:ProjectData.remove_interaction#only_one"] = dict(
+    schema=schema, make_env=lambda it: dict(_env_tdc(it), code_name="mix"),
+    ensures=[("C16.that_interaction_is_gone_and_the_transfers_are_kept", "len(self.interpops) == 0 and len(self.transfers) == 2 and self.transfers[0] is AGE and self.transfers[1] is MIG")], defined_props=["C16"])
